@@ -167,4 +167,19 @@ def cases(tier):
                 deadline_s=1200,
             )
         )
+    # "a run requested with the DMRG solver is a DMRG run": the dispatch, for both documented spellings of the
+    # solver (enum / string) - shared with C33
+    from harness.c33 import solver_vs_noise, COVERS_IMPL
+
+    out.append(
+        Case(
+            "dmrg_requested_dmrg_runs",
+            solver_vs_noise(["none"]),
+            covers=COVERS_IMPL,
+            bounds={"solver": "tdvp/dmrg as string or enum", "noise": "none", "qubits": 2},
+            canaries=[],
+            conc_samples=4,
+            weight=5,
+        )
+    )
     return out
